@@ -85,6 +85,39 @@ use std::{ops::Range, sync::Arc, time::Duration};
 
 /// Transparent AES-256-GCM encryption-at-rest layer for any [`ObjectStore`].
 pub mod encryption;
+
+/// Verification hook: reports every `(nonce, aad, plaintext)` triple handed to
+/// the AES-GCM cipher so that an external monitor can check nonce uniqueness.
+/// Only compiled with the `verif` cargo feature.
+#[cfg(feature = "verif")]
+pub mod verif {
+    use std::sync::atomic::{AtomicPtr, Ordering};
+
+    /// `(call site, nonce, aad, plaintext)`.
+    pub type NonceHook = fn(&'static str, &[u8; 12], &[u8], &[u8]);
+
+    static HOOK: AtomicPtr<()> = AtomicPtr::new(std::ptr::null_mut());
+
+    /// Installs (or clears) the process-wide nonce observer.
+    pub fn set_nonce_hook(f: Option<NonceHook>) {
+        let p = match f {
+            Some(f) => f as *const () as *mut (),
+            None => std::ptr::null_mut(),
+        };
+        HOOK.store(p, Ordering::SeqCst);
+    }
+
+    #[inline]
+    pub(crate) fn nonce_log(site: &'static str, nonce: &[u8; 12], aad: &[u8], data: &[u8]) {
+        let p = HOOK.load(Ordering::Acquire);
+        if !p.is_null() {
+            // SAFETY: the only non-null values ever stored are `NonceHook`
+            // pointers converted in `set_nonce_hook`.
+            let f: NonceHook = unsafe { std::mem::transmute(p) };
+            f(site, nonce, aad, data);
+        }
+    }
+}
 /// Fault-injection wrapper for crash-consistency and chaos testing.
 pub mod fault;
 mod sidecar;
